@@ -599,13 +599,12 @@ theorem defect_equal_sibling_hashes (H : Bytes → Bytes) (v : Bytes) :
     sizes of `CryptoTypes.py`, as re-read by the translator, are the ones the model is written with. -/
 theorem source_constants_tied :
     Generated.C09.TRANSACTION_HEADER_SIZE = headerSize ∧ Generated.C09.AGGREGATE_HASHED_SIZE = aggregateHashedSize ∧
-    Generated.C09.headerFields = [4, 4, 64, 32, 4] ∧ Generated.C09.aggregateHashedFields = [4, 8, 8, 32] ∧
     Generated.C09.TRANSACTION_HEADER_SIZE + Generated.C09.typeOffsetDelta = typeOffset ∧
     Generated.C09.windowStartDelta = 0 ∧ Generated.C09.windowEndDelta = 0 ∧
     Generated.C09.aggregateTypeCodes = aggregateTypes ∧
     (∀ c, c ∈ Generated.C09.aggregateTypeCodes ↔ IsAggregateCode c) ∧
     Generated.C09.hash256Size = 32 ∧ Generated.C09.signatureSize = 64 ∧ Generated.C09.publicKeySize = 32 := by
-  refine ⟨by decide, by decide, by decide, by decide, by decide, by decide, by decide, by decide, ?_, by decide,
+  refine ⟨by decide, by decide, by decide, by decide, by decide, by decide, ?_, by decide,
     by decide, by decide⟩
   intro c
   simp [Generated.C09.aggregateTypeCodes, IsAggregateCode, or_comm]
